@@ -478,7 +478,8 @@ PROPS = {
              "by the current reader for every frame query and every line, the two writers' files differ only in the "
              "class rows, and outside the domain the releases do differ (witness). The harness links the vendored pinned "
              "release: files written by each release are answered by both readers, and every answer must be "
-             "WrongVersion or identical.",
+             "WrongVersion or identical; the bytes each release writes are compared with the model of that release's "
+             "writer (PinnedModel.v: the complete pinned writer with F1, F2, F7; CacheWriter.v).",
              "representable grammar mappings and corpus files x {pinned 5.5.0, current tree} writers x both readers x "
              "class / method / line / params / text-trace / signature queries over the file's universe; non-trivial = "
              "query answered with a non-empty result. Typed remapping is excluded: the pinned release has defect F3 "
